@@ -10,7 +10,11 @@ import (
 )
 
 func main() {
-	c, err := core.Load("/repo", "quick")
+	repo := "/repo"
+	if r := os.Getenv("VERIF_REPO"); r != "" {
+		repo = r
+	}
+	c, err := core.Load(repo, "quick")
 	if err != nil {
 		fmt.Println(err)
 		os.Exit(2)
@@ -20,7 +24,7 @@ func main() {
 		fmt.Println("not found")
 		os.Exit(2)
 	}
-	x := &gee.Extractor{Info: p.TypesInfo, Fset: c.Fset}
+	x := &gee.Extractor{Info: p.TypesInfo, Fset: c.Fset, AllReturns: os.Getenv("GEE_ALL") != ""}
 	for _, r := range x.Extract(os.Args[2], d) {
 		fmt.Println(r.String())
 	}
